@@ -88,11 +88,23 @@ type obs struct {
 	NonMember  string
 }
 
-// one real BaseProposalSelector.Select as node `local`, with the suffrage
-// delivered in the order perm; dead = address that does not answer requests.
-func (w *world) selectAs(local base.LocalNode, perm []int, dead string, minWait, interval time.Duration) obs {
-	var mu sync.Mutex
-	o := obs{Local: local.Address().String()}
+// nodeSel is one simulated node: ONE real BaseProposalSelector instance (with
+// its own pool and ProposalMaker) that can be asked for several points, as a
+// running node does. listing() supplies the order in which GetNodesFunc hands
+// the suffrage back on each call (always a fresh slice: the selector sorts in
+// place); dead = address that does not answer requests.
+type nodeSel struct {
+	w     *world
+	local base.LocalNode
+	sel   *isaac.BaseProposalSelector
+	mu    sync.Mutex
+	o     obs
+}
+
+func (w *world) newNodeSel(local base.LocalNode, listing func() []int, dead string, minWait, interval time.Duration) *nodeSel {
+	ns := &nodeSel{w: w, local: local}
+	mu := &ns.mu
+	o := &ns.o
 
 	pool := newMemPool()
 	args := isaac.NewBaseProposalSelectorArgs()
@@ -127,6 +139,7 @@ func (w *world) selectAs(local base.LocalNode, perm []int, dead string, minWait,
 		return n, err
 	}
 	args.GetNodesFunc = func(base.Height) ([]base.Node, bool, error) {
+		perm := listing()
 		nodes := make([]base.Node, len(perm)) // fresh slice: the selector sorts in place
 		for i, p := range perm {
 			nodes[i] = w.locals[p]
@@ -155,11 +168,23 @@ func (w *world) selectAs(local base.LocalNode, perm []int, dead string, minWait,
 	args.RequestProposalInterval = interval
 	args.TimeoutRequest = func() time.Duration { return time.Second * 30 }
 
-	sel := isaac.NewBaseProposalSelector(local, args)
+	ns.sel = isaac.NewBaseProposalSelector(local, args)
+	return ns
+}
+
+// do runs one real Select on this node's selector instance.
+func (ns *nodeSel) do(point base.Point, prev util.Hash) obs {
+	ns.mu.Lock()
+	ns.o = obs{Local: ns.local.Address().String()}
+	ns.mu.Unlock()
 	t0 := time.Now()
-	pr, err := sel.Select(context.Background(), w.Point, w.Prev, 0)
-	mu.Lock()
-	defer mu.Unlock()
+	pr, err := ns.sel.Select(context.Background(), point, prev, 0)
+	ns.mu.Lock()
+	defer ns.mu.Unlock()
+	o := ns.o
+	o.Selections = append([]string{}, o.Selections...)
+	o.Inputs = append([]int{}, o.Inputs...)
+	o.Asked = append([]string{}, o.Asked...)
 	o.Elapsed = time.Since(t0)
 	if err != nil {
 		o.Err = err.Error()
@@ -167,6 +192,11 @@ func (w *world) selectAs(local base.LocalNode, perm []int, dead string, minWait,
 	}
 	o.Proposer = pr.ProposalFact().Proposer().String()
 	return o
+}
+
+// one real Select on a fresh selector as node `local`, suffrage listed in order perm
+func (w *world) selectAs(local base.LocalNode, perm []int, dead string, minWait, interval time.Duration) obs {
+	return w.newNodeSel(local, func() []int { return perm }, dead, minWait, interval).do(w.Point, w.Prev)
 }
 
 func newWorld(r *vlib.Run, i int) *world {
@@ -238,7 +268,7 @@ func newWorld(r *vlib.Run, i int) *world {
 func TestC07(t *testing.T) {
 	r := vlib.Start(t, "C07", vlib.LevelExploration)
 	defer r.Finish()
-	r.SetRule("case = (suffrage of n real nodes with PRNG addresses, point, previous-block hash); per case the real BaseProposalSelector.Select (ProposerSelectFunc = BlockBasedProposerSelector.Select) runs once per permutation of the suffrage slice, each time as a different member being the local node; pass 2 repeats with the first proposer not answering; plus raw BlockBasedProposerSelector.Select calls; distinct = (n, point, hash, pass); non-trivial = n >= 2")
+	r.SetRule("case = (suffrage of n real nodes with PRNG addresses, point, previous-block hash); per case the real BaseProposalSelector.Select (ProposerSelectFunc = BlockBasedProposerSelector.Select) runs once per permutation of the suffrage slice, each time as a different member being the local node; pass 2 repeats with the first proposer not answering; reuse phase: 4 nodes each keep ONE selector instance over an itinerary of 8-12 points (rounds of a height, next height, back) with the suffrage listed in a new order on every GetNodesFunc call, compared point by point; plus raw BlockBasedProposerSelector.Select calls; distinct = (n, point, hash, pass); non-trivial = n >= 2")
 	r.Assume("suffrage addresses are pairwise distinct (a suffrage cannot hold one address twice)")
 	r.Assume("a Select that outlives its own MinProposerWait falls back to the local node by design; such runs are counted as timing fallbacks and not judged")
 
@@ -447,6 +477,170 @@ func TestC07(t *testing.T) {
 	if judged1 < nCases*9/10 || judged2 < nPass2*8/10 {
 		r.Inconclusive(fmt.Sprintf("too many runs hit their own wait (judged %d/%d and %d/%d)", judged1, nCases, judged2, nPass2))
 	}
+
+	// ---- reuse: one selector instance per node over many points -----------
+	// A running node keeps ONE selector and asks it for round after round and
+	// height after height; the suffrage is listed afresh (new order) on every
+	// call. All nodes must agree on every point.
+	nReuse := r.N(160, 2500)
+	const nInst = 4
+	type step struct {
+		point base.Point
+		prev  util.Hash
+	}
+	type reuseRes struct {
+		w     *world
+		steps []step
+		obs   [][]obs // [step][instance]
+	}
+	reuse := make([]*reuseRes, nReuse)
+	ok = r.WithWatchdog(20*time.Minute, "reuse-selects", func() {
+		vlib.Parallel(nReuse, 128, func(i int) {
+			w := newWorld(r, 100000+i)
+			if w.N < 2 {
+				w = newWorld(r, 200000+i)
+			}
+			rng := r.Rand(4, i)
+			res := &reuseRes{w: w}
+			// itinerary: rounds of one height, the next height, back, forth ...
+			h0 := int64(10 + rng.Intn(1000))
+			nsteps := 8 + rng.Intn(5)
+			h, rd := h0, uint64(0)
+			for k := 0; k < nsteps; k++ {
+				b := make([]byte, 32)
+				rng.Read(b)
+				res.steps = append(res.steps, step{base.RawPoint(h, rd), valuehash.NewBytes(b)})
+				switch rng.Intn(5) {
+				case 0:
+					h, rd = h+1, 0
+				case 1:
+					if h > h0 {
+						h, rd = h-1, rd+1 // back to a height asked before, a later round
+					} else {
+						rd++
+					}
+				default:
+					rd++
+				}
+			}
+			insts := make([]*nodeSel, nInst)
+			for k := range insts {
+				prng := r.Rand(5, i, k)
+				var listing func() []int
+				switch k {
+				case 0: // always already sorted by address
+					p := make([]int, w.N)
+					for x := range p {
+						p[x] = x
+					}
+					sort.Slice(p, func(a, b int) bool {
+						return w.locals[p[a]].Address().String() < w.locals[p[b]].Address().String()
+					})
+					listing = func() []int { return p }
+				default: // a new order on every call
+					var lmu sync.Mutex
+					listing = func() []int {
+						lmu.Lock()
+						defer lmu.Unlock()
+						return prng.Perm(w.N)
+					}
+				}
+				insts[k] = w.newNodeSel(w.locals[(k*3+i)%w.N], listing, "", wait1, 50*time.Millisecond)
+			}
+			res.obs = make([][]obs, len(res.steps))
+			for si := range res.obs {
+				res.obs[si] = make([]obs, nInst)
+			}
+			var wg sync.WaitGroup
+			for k := range insts {
+				wg.Add(1)
+				go func(k int) {
+					defer wg.Done()
+					r.Guard("BaseProposalSelector.Select", map[string]any{"n": w.N, "phase": "reuse"}, func() {
+						for si, st := range res.steps {
+							res.obs[si][k] = insts[k].do(st.point, st.prev)
+						}
+					})
+				}(k)
+			}
+			wg.Wait()
+			reuse[i] = res
+		})
+	})
+	if !ok {
+		return
+	}
+	var reuseJudged, reuseFallbacks int
+	reuseSampled := false
+	for _, res := range reuse {
+		if res == nil {
+			continue
+		}
+		w := res.w
+		for si, st := range res.steps {
+			obsl := res.obs[si]
+			r.Case(fmt.Sprintf("reuse|n=%d|%s|%s|step%d", w.N, st.point, st.prev, si))
+			r.Count("selects", len(obsl))
+			r.Count("reuse_selects", len(obsl))
+			kind := "first-call-of-height"
+			for sj := 0; sj < si; sj++ {
+				if res.steps[sj].point.Height() == st.point.Height() {
+					kind = "later-call-of-height"
+				}
+			}
+			r.Count("reuse_points_"+kind, 1)
+			var itinerary []string
+			for _, x := range res.steps[:si+1] {
+				itinerary = append(itinerary, x.point.String())
+			}
+			wit := map[string]any{"n": w.N, "phase": "one selector instance reused", "itinerary_so_far": itinerary, "point": st.point.String(), "previous_block": st.prev.String(), "observations": obsl}
+			var ref *obs
+			for k := range obsl {
+				o := &obsl[k]
+				if o.NonMember != "" {
+					r.Violation("BlockBasedProposerSelector.Select:result-not-in-input", fmt.Sprintf("n=%d: selected %s which is not in the slice it was given", w.N, o.NonMember), wit)
+				}
+				if o.Err != "" {
+					r.Violation("BaseProposalSelector.Select:error:reuse", fmt.Sprintf("n=%d point=%s: Select failed although every node answers: %s", w.N, st.point, o.Err), wit)
+					continue
+				}
+				if _, in := w.byAddr[o.Proposer]; !in {
+					r.Violation("BaseProposalSelector.Select:proposer-not-a-member", fmt.Sprintf("n=%d: proposer %s is not in the suffrage", w.N, o.Proposer), wit)
+				}
+				last := ""
+				if len(o.Selections) > 0 {
+					last = o.Selections[len(o.Selections)-1]
+				}
+				if len(o.Selections) != 1 || (o.Proposer == o.Local && last != o.Local) {
+					if o.Elapsed >= wait1 {
+						reuseFallbacks++
+						continue
+					}
+					r.Violation("BaseProposalSelector.Select:live-node-dropped-without-timeout:reuse",
+						fmt.Sprintf("n=%d: local %s, selections %v, proposer %s after %s", w.N, o.Local, o.Selections, o.Proposer, o.Elapsed), wit)
+					continue
+				}
+				if ref == nil {
+					ref = o
+					continue
+				}
+				if o.Proposer != ref.Proposer || last != ref.Selections[0] {
+					r.Violation("BaseProposalSelector.Select:proposer-depends-on-order:reused-selector:"+kind,
+						fmt.Sprintf("n=%d point=%s (%s, step %d of one selector instance): proposer %s on one node, %s on another that was given other listings", w.N, st.point, kind, si, ref.Proposer, o.Proposer), wit)
+				}
+			}
+			if ref != nil {
+				reuseJudged++
+				if !reuseSampled && si >= 3 && kind == "later-call-of-height" {
+					reuseSampled = true
+					r.Sample(map[string]any{"phase": "one selector instance reused", "n": w.N, "itinerary_so_far": itinerary, "proposer_on_all_nodes": ref.Proposer})
+				}
+			}
+		}
+	}
+	r.Count("reuse_points_judged", reuseJudged)
+	r.Count("reuse_timing_fallbacks_not_judged", reuseFallbacks)
+	r.Set("reuse_instances_per_case", nInst)
 
 	// ---- raw selector: result is an element of its input -----------------
 	raw := isaac.NewBlockBasedProposerSelector()
